@@ -25,6 +25,7 @@ def configs(tier):
     cs.append(Config(levels=1, ndisks=4, tag="sparse", contents=["c0/content", "c1/content"]))
     # a disk whose only recorded state are DELETED positions (emptied, the sync that follows stops early)
     cs.append(Config(levels=2, ndisks=2, tag="emptied", contents=["c0/content", "c1/content"]))
+    cs.append(Config(levels=1, ndisks=2, tag="phantom", contents=["c0/content", "c1/content"]))
     if tier == "thorough":
         cs += [Config(levels=2, ndisks=3, tag="hole", contents=["c0/content", "c1/content"]),
                Config(levels=3, z=True, ndisks=2, hashsize=2, contents=["c0/content", "c1/content"])]
@@ -32,6 +33,11 @@ def configs(tier):
 
 
 def init_ops(cfg):
+    if cfg.tag == "phantom":
+        # a disk whose last remains are DELETED positions that no file of any disk uses any more, saved by a sync that is killed
+        # right after its first content write (sync -E because the disk is now empty)
+        return [("write", "d1", "A", 1024, 0), ("write", "d1", "B", 1024, 0), ("write", "d2", "C", 1024, 0), ("cmd", "sync"),
+                ("rm", "d1", "A"), ("cmd", "sync"), ("rm", "d2", "C"), ("cmd", "sync", "-E", "--test-kill-after-sync")]
     ops = C06.init_ops(cfg)
     # odd names, links, dirs before the first sync
     extra = [("write", "d1", "nl\nx", 10, 0), ("write", "d2", "co:lon", 1024, 0), ("write", "d1", "\udcff\udcfe", 0, 0),
